@@ -4,7 +4,8 @@ import gen_C16
 
 ID = 'C16'
 GEN = [('Gen/C16_Slug.v', gen_C16.generate_slug), ('Gen/C16_Code.v', gen_C16.generate_code),
-       ('Gen/C16_Fold.v', gen_C16.generate_fold), ('Gen/C16_Aliases.v', gen_C16.generate_aliases)]
+       ('Gen/C16_Fold.v', gen_C16.generate_fold), ('Gen/C16_Aliases.v', gen_C16.generate_aliases),
+       ('Gen/C16_Charmaps.v', gen_C16.generate_charmaps)]
 EQUIV_FILES = ['Proofs/C16.v']
 EXTRACT = 'Extract/C16_x.v'
 
@@ -98,7 +99,7 @@ def impl(c):
 
 # ------------------------------------------------------------------ what the Coq model covers
 
-MODELLED = ('utf-8', 'iso8859-1', 'ascii')
+MODELLED = ('utf-8', 'iso8859-1', 'ascii', 'utf-16', 'utf-16-le', 'utf-16-be', 'utf-32', 'utf-32-le', 'utf-32-be', 'cp1252', 'koi8-r')
 POLICIES = ('strict', 'ignore', 'replace')
 REGISTERED_UNMODELLED = ('xmlcharrefreplace', 'backslashreplace', 'namereplace', 'surrogateescape', 'surrogatepass')
 
@@ -363,6 +364,15 @@ MALFORMED_UTF8 = [b'\x80', b'\xbf', b'\xc0\x80', b'\xc1\xbf', b'\xc2', b'\xc2\x4
                   b'\xf0\x90\x80\x41', b'\xf0\x90', b'\xf0', b'\xf4\x8f\xbf\xbf', b'\xf4\x90\x80\x80', b'\xf5\x80\x80\x80', b'\xff', b'\xfe', b'\xf8\x88\x80\x80\x80',
                   b'\xe2\x82', b'\xe2\x82\x41', b'\xe2\x41', b'\xf1\x80\x80', b'\xf1\x80\x41', b'\xf1\x41', b'\xc2\xc2\xa9', b'\xe2\xe2\x82\xac', b'\xf0\x9f\x98']
 
+MALFORMED_UTF16 = [bytes.fromhex(x) for x in (
+    '00d8', '00d841', '00d84100', '00dc', '00dc4100', '41', '410042', '00d800d800dc', '00d800dc41', 'fffe', 'fffe4100', 'feff0041', 'ff', 'fe',
+    'fffe41', 'feffd800', '00d800', 'd80041', 'd800dc00', 'dc00d800', 'fffefffe4100', 'fefffeff0041', 'fffefeff', 'ffdf', 'ffdb00dc', '00dcffdb',
+    'ffdbffdf', '00d8ffdf41', 'fffe00d8', 'feff00d8', 'fffe00dc00d8', 'ffff', 'feffdbffdfff')]
+MALFORMED_UTF32 = [bytes.fromhex(x) for x in (
+    '41000000', '410000', '4100', '41', '4100000042', '00d80000', 'ffdf0000', '00e00000', 'ffd70000', '00001100', 'ffff1000', 'ffffffff', 'fffe0000',
+    'fffe000041000000', '0000feff00000041', '0000feff', 'fffe00', 'fffe', '00d8000041', '000011004100', '0000feff0000d80000', '0000d800', '00110000',
+    '0010ffff', 'fffe0000fffe0000', '0000feff0000feff', 'fffe00000000feff', '00000041', '0000feff41000000', 'fffe000000d80000', '00000000', 'fffe0000000011')]
+
 def rand_bytes(rng, fam=None):
     r = rng.random()
     if r < 0.08: return b''
@@ -371,7 +381,13 @@ def rand_bytes(rng, fam=None):
         t = rand_text_for(rng, fam)
         try: return t.encode(fam)
         except UnicodeError: return t.encode(fam, 'replace')
-    if r < 0.75:
+    if r < 0.6:
+        out = b''
+        for _ in range(rng.randint(1, 3)):
+            q = rng.random()
+            out += rng.choice(MALFORMED_UTF16) if q < 0.45 else rng.choice(MALFORMED_UTF32) if q < 0.9 else bytes([rng.randrange(256)])
+        return out
+    if r < 0.8:
         out = b''
         for _ in range(rng.randint(1, 4)):
             out += rng.choice(MALFORMED_UTF8) if rng.random() < 0.6 else rng.choice([b'a', b'-', b' ', b'\xc3\xa9', b'\xe2\x82\xac', b'\xf0\x9f\x98\x80', b'Z'])
@@ -440,7 +456,7 @@ def one_case(rng):
         return {'op': 'enc', 'text': rand_text_for(rng, fam) if rng.random() < 0.6 else rand_text(rng, surrogates=0.1),
                 'codec': rand_name(rng, fam if rng.random() < 0.9 else None), 'errors': rand_errors(rng, False)}
     if r < 0.96:
-        fam = rng.choice(['utf-8', 'utf-8', 'ascii', 'latin-1', 'cp1252', 'utf-16'])
+        fam = rng.choice(['utf-8', 'utf-8', 'ascii', 'latin-1', 'cp1252', 'utf-16', 'utf-16', 'utf-32', 'utf-32'])
         return {'op': 'dec', 'data': rand_bytes(rng, fam).hex(), 'codec': rand_name(rng, fam), 'errors': rand_errors(rng, False)}
     if r < 0.98:
         return {'op': 'lookup', 'name': rand_lookup_name(rng)}
@@ -493,6 +509,17 @@ def boundary_cases():
             for e in POLICIES + ('nope',):
                 out.append({'op': 'dec', 'data': (pre + b + post).hex(), 'codec': 'utf-8', 'errors': e})
                 out.append({'op': 'safe_decode', 'value': B(pre + b + post), 'incoming': 'ascii', 'errors': e, 'stdin': None})
+    for lst, cdcs in ((MALFORMED_UTF16, ['utf-16', 'utf-16-le', 'utf-16-be']), (MALFORMED_UTF32, ['utf-32', 'utf-32-le', 'utf-32-be'])):
+        for b in lst:
+            for cdc in cdcs:
+                for pre in (b'', b'A\x00', b'\x00A', b'A\x00\x00\x00'):
+                    for e in POLICIES:
+                        out.append({'op': 'dec', 'data': (pre + b).hex(), 'codec': cdc, 'errors': e})
+                out.append({'op': 'safe_decode', 'value': B(b), 'incoming': cdc, 'errors': 'replace', 'stdin': None})
+    for x in [0, 0xff, 0x100, 0xd7ff, 0xd800, 0xdbff, 0xdc00, 0xdfff, 0xe000, 0xfeff, 0xfffe, 0xffff, 0x10000, 0x103ff, 0x10400, 0x10ffff]:
+        for cdc in ['utf-16', 'utf-16-le', 'utf-16-be', 'utf-32', 'utf-32-le', 'utf-32-be']:
+            for e in POLICIES + ('nope',):
+                out.append({'op': 'enc', 'text': chr(x) + 'a' + chr(x), 'codec': cdc, 'errors': e})
     for name in sorted(OTHERS):
         for op in ('safe_decode', 'safe_encode', 'to_utf8', 'to_slug'):
             out.append({'op': op, 'value': O(name), 'stdin': None})
@@ -535,16 +562,18 @@ RULE = ('boundary cases (13 texts x 3 spellings x 8 codec families x 3 policies;
         '(lone surrogates 3 %), codec names = aliases of 8 families in mixed letter case plus unknown names, errors = strict/ignore/replace (+ default, unknown, '
         'unmodelled registered handlers), sys.stdin.encoding from 11 settings; the whole NFKD table and every alias of encodings.aliases once; '
         'distinct = distinct case JSON; trivial = none')
-TRUSTED = ['CPython codecs other than utf-8/latin-1/ascii, and sys.stdin.encoding, are runtime: they enter the theorems as a `world` record with explicit contracts '
+TRUSTED = ['shift_jis (and any codec other than the eleven modelled ones) and sys.stdin.encoding are runtime: they enter the theorems as a `world` record with explicit contracts '
            '(error handler consulted only on error; strict decode of a strict encoding gives the text back; lookup independent of letter case) which the oracle tests on every generated triple',
-           'UTF-8 / Latin-1 / ASCII encoders and decoders (strict, ignore, replace), codec-name normalisation and the NFKD->ASCII residue are Coq models tied to CPython by correspondence '
-           '(ops enc/dec/lookup/fold), with the contracts proved for them',
+           'UTF-8, Latin-1, ASCII, UTF-16 / -LE / -BE, UTF-32 / -LE / -BE, cp1252, koi8-r encoders and decoders (strict, ignore, replace; error spans as CPython reports them), codec-name '
+           'normalisation + alias table, and the NFKD->ASCII residue are Coq models tied to CPython by correspondence (ops enc/dec/lookup/fold, malformed inputs included), with the contracts PROVED for them',
            'CPython re / str.strip / str.lower as modelled in Base/Regex.v, Base/PyInt.v, Base/Str.v; regex ASTs and Unicode tables regenerated on every run']
 ASSUMPTIONS = ['error handlers other than strict/ignore/replace and codec names with non-ASCII characters are outside the correspondence (oracle only)',
                'NFKD of a string = concatenation of per-character residues after dropping non-ASCII (tested on every fold/to_slug case; holds because ASCII characters are starters)']
 LEVEL_TEXT = ('Theorems for all inputs over an arbitrary codec registry with stated contracts (str identity, decode with UTF-8 fallback, encode/decode round trip for every '
-              'representable text in any letter case and error policy, bytes untouched when the names agree, transcoding otherwise, to_utf8, TypeError for every other type), '
-              'closed instances for UTF-8 / Latin-1 / ASCII with the codecs modelled and their round trip proved for every surrogate-free text; to_slug alphabet, single hyphens and '
-              'idempotence for all inputs from regex-engine lemmas applied to the regenerated regex ASTs; the four functions are translated statement by statement on every run and proved equal to the model.')
+              'representable text in any letter case and error policy, bytes untouched when the names agree, transcoding otherwise, to_utf8, TypeError for every other type); '
+              'closed instances (no premises) for eleven concrete codecs - UTF-8, Latin-1, ASCII, UTF-16/-LE/-BE, UTF-32/-LE/-BE, cp1252, koi8-r - each with decode(encode t) = t proved for every '
+              'representable text of any length, canonicity of the BOM-less decoders, closed transcoding between any two of them, soundness of the name-comparing "same codec" shortcut and the alias case; '
+              'to_slug alphabet, single hyphens and idempotence for all inputs with the generated NFKD table (no hypothesis left) from regex-engine lemmas applied to the regenerated regex ASTs; '
+              'the four functions are translated statement by statement on every run and proved equal to the model.')
 LEVEL_NOTE = ('Trusted: Coq kernel; translator tools/gen/gen_C16.py (CPython ast, re._parser, unicodedata, encodings.aliases); CPython codec behaviour for the other codecs as contracts '
               '(tested); correspondence harness. No axioms.')
